@@ -1,2 +1,170 @@
--- stub driver for C20: replaced when the property's model exists
-def main : IO Unit := pure ()
+import Snel.Model.Proto
+import Snel.Model.Response
+open Snel Snel.Proto Snel.Response Snel.Gen.C20
+
+/-! Driver for C20.
+
+`table <writer> <limit|-> <offset|-> <batchMode> <ncols> (<name> <type>)* <nbatches> (<nrows> cell*)*`
+  writer = `q` | `s:<materialized>:<watermark 0|1>`; names/types/strings in hex.
+  cell = `n` | `b0` | `b1` | `i<dec>` | `t<dec>` | `f<16hex>/<display hex>` |
+         `s<hex>/<parse f64: 16hex|->/<container canon hex|->` | `x<hex>`
+  (the parts after `/` are the external-library answers for that value, see `Ext`).
+`err <j|u|a> <code> <msghex>`
+-/
+
+structure Hints where
+  pf : List (Bytes × Nat) := []
+  fmt : List (Nat × Bytes) := []
+  pc : List (Bytes × Bytes) := []
+
+def Hints.ext (h : Hints) : Ext :=
+  { parseF64 := fun s => (h.pf.find? (·.1 == s)).map (·.2)
+    fmtF64 := fun b => ((h.fmt.find? (·.1 == b)).map (·.2)).getD []
+    parseContainer := fun s => (h.pc.find? (·.1 == s)).map (·.2) }
+
+def hexNat (s : String) : Option Nat :=
+  if s.isEmpty then none else
+  s.toList.foldl (fun acc c => do let a ← acc; let v ← hexVal c; pure (a * 16 + v)) (some 0)
+
+def drop1 (s : String) : String := String.ofList (s.toList.drop 1)
+
+/-- Parse one cell token, collecting hints. -/
+def parseCell (tok : String) (h : Hints) : Option (Scalar × Hints) :=
+  match tok.toList with
+  | ['n'] => some (.null, h)
+  | ['b', '0'] => some (.bool false, h)
+  | ['b', '1'] => some (.bool true, h)
+  | 'i' :: _ => (drop1 tok).toInt?.map fun i => (.int i, h)
+  | 't' :: _ => (drop1 tok).toInt?.map fun i => (.ts i, h)
+  | 'f' :: _ =>
+    match (drop1 tok).splitOn "/" with
+    | [bits, disp] => do
+      let b ← hexNat bits
+      let d ← unhex disp
+      some (.float b, { h with fmt := (b, d) :: h.fmt })
+    | _ => none
+  | 's' :: _ =>
+    match (drop1 tok).splitOn "/" with
+    | [sx, pf, pc] => do
+      let s ← unhex sx
+      let h1 ← if pf == "-" then some h else (hexNat pf).map fun b => { h with pf := (s, b) :: h.pf }
+      let h2 ← if pc == "-" then some h1 else (unhex pc).map fun c => { h1 with pc := (s, c) :: h1.pc }
+      some (.utf8 s, h2)
+    | _ => none
+  | 'x' :: _ => (unhex (drop1 tok)).map fun b => (.binary b, h)
+  | _ => none
+
+def parseCells : Nat → List String → Hints → Option (List Scalar × List String × Hints)
+  | 0, toks, h => some ([], toks, h)
+  | n + 1, tok :: toks, h => do
+    let (c, h1) ← parseCell tok h
+    let (cs, rest, h2) ← parseCells n toks h1
+    some (c :: cs, rest, h2)
+  | _, [], _ => none
+
+def parseRows (ncols : Nat) : Nat → List String → Hints → Option (List Row × List String × Hints)
+  | 0, toks, h => some ([], toks, h)
+  | n + 1, toks, h => do
+    let (r, rest, h1) ← parseCells ncols toks h
+    let (rs, rest2, h2) ← parseRows ncols n rest h1
+    some (r :: rs, rest2, h2)
+
+def parseBatches (ncols : Nat) : Nat → List String → Hints → Option (List Batch × List String × Hints)
+  | 0, toks, h => some ([], toks, h)
+  | n + 1, tok :: toks, h => do
+    let nrows ← tok.toNat?
+    let (b, rest, h1) ← parseRows ncols nrows toks h
+    let (bs, rest2, h2) ← parseBatches ncols n rest h1
+    some (b :: bs, rest2, h2)
+  | _, [], _ => none
+
+def parseCols : Nat → List String → Option (Schema × List String)
+  | 0, toks => some ([], toks)
+  | n + 1, a :: b :: toks => do
+    let name ← unhex a
+    let ty ← unhex b
+    let (cs, rest) ← parseCols n toks
+    some (⟨name, ty⟩ :: cs, rest)
+  | _, _ => none
+
+def parseOptNat (s : String) : Option (Option Nat) :=
+  if s == "-" then some none else s.toNat?.map some
+
+def parseWriter (s : String) : Option Writer :=
+  if s == "q" then some .query else
+  match s.splitOn ":" with
+  | ["s", m, w] => do
+    let m ← m.toNat?
+    let w ← if w == "0" then some false else if w == "1" then some true else none
+    some (.show m w)
+  | _ => none
+
+def hex16 (n : Nat) : String :=
+  String.ofList ((List.range 16).map fun i => hexDigit (n / 16 ^ (15 - i) % 16))
+
+def showCell : Cell → String
+  | .null => "n"
+  | .bool b => if b then "b1" else "b0"
+  | .int i => s!"i{i}"
+  | .float b => "d" ++ hex16 b
+  | .str s => "s" ++ hexOfBytes s
+  | .json c => "j" ++ hexOfBytes c
+
+def showRow (r : List Cell) : String := "(" ++ ",".intercalate (r.map showCell) ++ ")"
+
+def showFrame : JFrame → String
+  | .batch rows => "B" ++ String.join (rows.map showRow)
+  | .row cells => "R" ++ showRow cells
+
+def showJ (tag : String) (s : JStream) : String :=
+  tag ++ " cols=[" ++ ",".intercalate (s.cols.map fun c => hexOfBytes c.1 ++ ":" ++ hexOfBytes c.2)
+    ++ "] frames=[" ++ ";".intercalate (s.frames.map showFrame) ++ s!"] end={s.endCount}"
+
+def showBuilder : Builder → String
+  | .int64 => "i64" | .float64 => "f64" | .bool => "bool" | .tsMillis => "tsms" | .utf8 => "lutf8"
+
+def showA (s : AStream) : String :=
+  "A cols=[" ++ ",".intercalate (s.cols.map fun c => hexOfBytes c.1 ++ ":" ++ showBuilder c.2)
+    ++ "] batches=[" ++ ";".intercalate (s.batches.map fun b => String.join (b.map showRow)) ++ "]"
+
+def answerTable (toks : List String) : Option String :=
+  match toks with
+  | w :: lim :: off :: bm :: nc :: rest => do
+    let w ← parseWriter w
+    let limit ← parseOptNat lim
+    let offset ← parseOptNat off
+    let batchMode ← if bm == "1" then some true else if bm == "0" then some false else none
+    let ncols ← nc.toNat?
+    let (schema, rest1) ← parseCols ncols rest
+    match rest1 with
+    | nb :: rest2 => do
+      let nb ← nb.toNat?
+      let (batches, rest3, h) ← parseBatches ncols nb rest2 {}
+      if !rest3.isEmpty then none else
+      let ext := h.ext
+      let cfg : Settings := ⟨limit, offset⟩
+      let j := writeJson ext cfg w batchMode schema batches
+      let a := writeArrow ext cfg w schema batches
+      some (showJ "J" j ++ " | " ++ showJ "U" j ++ " | " ++ showA a)
+    | [] => none
+  | _ => none
+
+def answerErr (toks : List String) : Option String :=
+  match toks with
+  | [r, code, msg] => do
+    let r ← if r == "j" then some Renderer.json else if r == "u" then some .unix
+            else if r == "a" then some .arrow else none
+    let code ← code.toNat?
+    let msg ← unhex msg
+    let out := errorBytes r code msg
+    let body := match bodyCode r code msg with | some c => toString c | none => "-"
+    some (hexOfBytes out ++ s!" body={body} http={httpStatus out (some code)}")
+  | _ => none
+
+def answer (line : String) : String :=
+  match words line with
+  | "table" :: rest => (answerTable rest).getD "bad-op"
+  | "err" :: rest => (answerErr rest).getD "bad-op"
+  | _ => "bad-op"
+
+def main : IO Unit := serve answer
